@@ -40,14 +40,14 @@ MsFloorNote ==
 (* The bucket.  exc = 64*bytes - targets over the run that started at the last "restart",         *)
 (* kept from falling below -SlackCap so that the state space closes.                               *)
 InitB == st \in {[k |-> "B", res |-> 0, exc |-> 0, rate |-> r] : r \in Rates}
-NextB ==
-  /\ st.k = "B"
-  /\ \/ \E r \in Rates : st' = [st EXCEPT !.rate = r]                               \* bitrate / duration switch
-     \/ st' = [st EXCEPT !.exc = 0]                                                 \* a new window starts here
-     \/ \E lo \in {0, 2}, cap \in Caps, silent \in BOOLEAN :
-          \E b \in Min(lo, cap)..MaxAllowed(st.res, st.rate, lo, cap) :
-             LET o == BucketStep(st.res, st.rate, b, silent, cap) IN
-             st' = [st EXCEPT !.res = o.res, !.exc = Max(0 - SlackCap, st.exc + 64 * o.bytes - st.rate)]
+BSwitch  == st.k = "B" /\ \E r \in Rates : st' = [st EXCEPT !.rate = r]           \* bitrate / duration switch
+BRestart == st.k = "B" /\ st' = [st EXCEPT !.exc = 0]                               \* a new window starts here
+BFrame   == /\ st.k = "B"
+            /\ \E lo \in {0, 2}, cap \in Caps, silent \in BOOLEAN :
+                 \E b \in Min(lo, cap)..MaxAllowed(st.res, st.rate, lo, cap) :
+                    LET o == BucketStep(st.res, st.rate, b, silent, cap) IN
+                    st' = [st EXCEPT !.res = o.res, !.exc = Max(0 - SlackCap, st.exc + 64 * o.bytes - st.rate)]
+NextB == BSwitch \/ BRestart \/ BFrame
 MaxRate == CHOOSE r \in Rates : \A x \in Rates : x <= r
 ResBoundedAll == st.k = "B" => (st.res >= 0 /\ st.res <= BucketBound(MaxRate))
 \* over any run of frames: 64 * bytes <= sum of targets + one bucket
@@ -61,23 +61,22 @@ MsBufs(S, is100) == (SmallestPacket(S, is100)..MsMaxB) \cup {b \in MsBig : b >= 
 InitM == st \in {[k |-> "M", S |-> S, h |-> is100, maxb |-> 0, s |-> 0, tot |-> 0, ok |-> TRUE, cbr |-> c] :
                    S \in MsS, is100 \in BOOLEAN, c \in BOOLEAN}
 LenCands(lo, cm) == {x \in {lo, lo + 1, 2, 3, 4, 250, 251, 252, 253, 254, 255, cm \div 2, cm - 3, cm - 2, cm - 1, cm} : x >= lo /\ x <= cm}
-NextM ==
-  /\ st.k = "M"
-  /\ \/ /\ st.maxb = 0
-        /\ \E b \in MsBufs(st.S, st.h) : st' = [st EXCEPT !.maxb = b]
-     \/ /\ st.maxb > 0 /\ st.s < st.S /\ st.ok
-        /\ LET cm   == CurrMax(st.maxb, st.tot, st.s, st.S, st.h)
-               last == st.s = st.S - 1
-               lo   == MinLen(st.h) IN
-           IF cm < lo THEN st' = [st EXCEPT !.ok = FALSE]
-           ELSE \E len \in LenCands(lo, cm) :
-                  \* the repacketizer re-frames the stream's packet: padding is dropped, the self-delimiting
-                  \* length is added (not for the last stream); with VBR off the last stream is padded to fill
-                  \E out \in (IF last THEN (IF st.cbr THEN {st.maxb - st.tot} ELSE {lo, len})
-                              ELSE {lo + 1, len + SdOverhead(len)}) :
-                     LET room == st.maxb - st.tot IN
-                     st' = [st EXCEPT !.s = st.s + 1, !.tot = st.tot + out,
-                                      !.ok = (len + (IF last THEN 0 ELSE SdOverhead(len)) <= room) /\ out <= room /\ out >= 1]
+MPick   == /\ st.k = "M" /\ st.maxb = 0
+           /\ \E b \in MsBufs(st.S, st.h) : st' = [st EXCEPT !.maxb = b]
+MStream == /\ st.k = "M" /\ st.maxb > 0 /\ st.s < st.S /\ st.ok
+           /\ LET cm   == CurrMax(st.maxb, st.tot, st.s, st.S, st.h)
+                  last == st.s = st.S - 1
+                  lo   == MinLen(st.h) IN
+              IF cm < lo THEN st' = [st EXCEPT !.ok = FALSE]
+              ELSE \E len \in LenCands(lo, cm) :
+                     \* the repacketizer re-frames the stream's packet: padding is dropped, the self-delimiting
+                     \* length is added (not for the last stream); with VBR off the last stream is padded to fill
+                     \E out \in (IF last THEN (IF st.cbr THEN {st.maxb - st.tot} ELSE {lo, len})
+                                 ELSE {lo + 1, len + SdOverhead(len)}) :
+                        LET room == st.maxb - st.tot IN
+                        st' = [st EXCEPT !.s = st.s + 1, !.tot = st.tot + out,
+                                         !.ok = (len + (IF last THEN 0 ELSE SdOverhead(len)) <= room) /\ out <= room /\ out >= 1]
+NextM == MPick \/ MStream
 NeverOverrun == st.k = "M" => (st.ok /\ st.tot <= st.maxb /\ st.tot >= 0)
 MsDoneFills  == (st.k = "M" /\ st.maxb > 0 /\ st.s = st.S /\ st.cbr) => st.tot = st.maxb
 
